@@ -2,14 +2,17 @@
   C19 (evaluating model) — The command line prints exactly what the library computes.
 
   `Model.Cli2.cliEval env args` is what `main(argv)` prints (or how it fails) for ISO 8601 input,
-  composed from the value models of the library (point parser with dump_as_parsed, strptime and its
-  `time.strptime` fallback for the two built-in ISO-like formats, duration parser and `str`, point
+  composed from the value models of the library (point parser with dump_as_parsed, strptime for the
+  two built-in ISO-like formats, duration parser and `str`, point
   arithmetic, recurrences, dumper, strftime).  The driver op `clieval` runs it; it was compared with
   the real `metomi.isodatetime.main.main(argv)` in-process on generated command lines.  The
   theorems below are about that function:
 
     C19_eval_shift        one date-time + offsets: the line is the (print | as-parsed) format of
                           the left fold of `+` over the signed offsets, starting at the parsed point
+    C19_eval_as_written   no offsets, no print format: a complete date form + whole-unit time form
+                          (+ zone form), in any of the parser's notations, prints back letter for
+                          letter (through C07c's dump_as_parsed round trip)
     C19_eval_diff         two date-times: the line is `str(D)` for the signed D with first + D at
                           the instant of second (C04/C02); `--as-total=U` prints `repr(seconds / U)`
     C19_eval_as_total     a duration + `--as-total=U`
@@ -25,6 +28,7 @@
 import IsoDT.Lemmas.Cli2
 import IsoDT.Props.C19
 import IsoDT.Props.C10
+import IsoDT.Props.C07c
 
 namespace IsoDT.Props.C19b
 open IsoDT IsoDT.Model IsoDT.Model.Cli IsoDT.Model.Cli2 IsoDT.Lemmas IsoDT.Lemmas.Cli2
@@ -292,7 +296,7 @@ theorem C19_eval_errors_item (env : Env) (a : Args) (i : Str) (st : Setup) (f : 
 /-- What "cannot be read" means for an ISO 8601 text: neither built-in strptime format applies and
     the ISO 8601 parser refuses it; the command then exits with the parser's message. -/
 theorem C19_eval_errors_point (st : Setup) (s : Str) (hp : plain s = true) (hr : s ≠ "ref".toList)
-    (hn : s ≠ "now".toList) (h1 : tryStrp st s fmtExt toksExt = none) (h2 : tryStrp st s fmtBasic toksBasic = none)
+    (hn : s ≠ "now".toList) (h1 : tryStrp st s fmtExt = none) (h2 : tryStrp st s fmtBasic = none)
     (h3 : Text.parse st.textCfg s true = none) : dateParse st s = .error (.exit .point) := by
   unfold dateParse
   simp only [hr, ↓reduceIte, hn, hp, Bool.not_true, Bool.false_eq_true, parseAny, h1, h2, parseIso, h3]
@@ -402,6 +406,205 @@ theorem C19_eval_no_traceback_partial_known_calendar (env : Env) (a : Args) (hl 
     · exact h4 h2
     · exact h4 i h3
 
+
+/-! ## Printed as written -/
+
+section asWritten
+open IsoDT.Text IsoDT.Props.C07
+open _root_.IsoDT.Gen.Templates (parserTables)
+
+def exprSame (a b : Option Expr) : Bool :=
+  match a, b with
+  | some a, some b => decide (a.segs = b.segs) && decide (a.props = b.props) && decide (a.customTZ = b.customTZ)
+  | _, _ => false
+
+/-- For the parser the command uses: every as-parsed expression text of a date form WITHOUT expanded
+    year digits (the point then carries 0 expanded digits, and `str` would use the dumper for 0 digits)
+    is compiled by the command's dumper (2 digits) to the same printf expression; and every as-parsed
+    expression text is made of printable characters. -/
+def cliExprOK : Bool :=
+  match dumpTablesFor 2, dumpTablesFor 0 with
+  | some d2, some d0 =>
+    defaultTables.dateEntries.all fun de => de.typ != .complete ||
+      defaultTables.timeEntries.all fun te => te.typ == .truncated || te.fmt != de.fmt ||
+        (zoneOpts defaultTables de.fmt).all fun zo =>
+          plainSp (fmtOf de (some te) zo) &&
+          (hasGroup de.tmpl .expandedYear ||
+            exprSame (getExpr d2 (fmtOf de (some te) zo)) (getExpr d0 (fmtOf de (some te) zo)))
+  | _, _ => false
+
+set_option maxRecDepth 100000 in
+theorem cliExprOK_true : cliExprOK = true := by decide +kernel
+
+theorem defaultTables_eq : defaultTables = Gen.Templates.parser_2_all := by rfl
+theorem defaultTables_mem : defaultTables ∈ parserTables := by rw [defaultTables_eq]; exact .tail _ (.tail _ (.head _))
+theorem defaultTables_ned : defaultTables.ned = 2 := by rw [defaultTables_eq]; rfl
+
+
+theorem exprSame_eq (a b : Option Expr) (h : exprSame a b = true) : a = b ∧ a.isSome = true := by
+  unfold exprSame at h
+  split at h
+  · rename_i x y
+    simp only [Bool.and_eq_true, decide_eq_true_eq] at h
+    obtain ⟨⟨h1, h2⟩, h3⟩ := h
+    obtain ⟨s1, p1, c1⟩ := x
+    obtain ⟨s2, p2, c2⟩ := y
+    simp only at h1 h2 h3
+    subst h1 h2 h3
+    exact ⟨rfl, rfl⟩
+  · cases h
+
+theorem cliExpr_spec (de : Entry) (hde : de ∈ defaultTables.dateEntries) (hdc : de.typ = .complete)
+    (te : Entry) (hte : te ∈ defaultTables.timeEntries) (htt : te.typ ≠ .truncated) (htf : te.fmt = de.fmt)
+    (zo : Option ZEntry) (hzo : ∀ ze, zo = some ze → ze ∈ defaultTables.zoneEntries ∧ ze.fmt = de.fmt) :
+    plainSp (fmtOf de (some te) zo) = true ∧
+    (hasGroup de.tmpl .expandedYear = false → ∃ d2 d0, dumpTablesFor 2 = some d2 ∧ dumpTablesFor 0 = some d0 ∧
+      getExpr d2 (fmtOf de (some te) zo) = getExpr d0 (fmtOf de (some te) zo)) := by
+  have hk := cliExprOK_true
+  unfold cliExprOK at hk
+  split at hk
+  · rename_i d2 d0 h2 h0
+    simp only [List.all_eq_true, Bool.or_eq_true, bne_iff_ne, ne_eq, beq_iff_eq, Bool.and_eq_true] at hk
+    have hmem : zo ∈ zoneOpts defaultTables de.fmt := by
+      cases zo with
+      | none => exact List.mem_cons_self ..
+      | some ze =>
+        obtain ⟨h1, h2⟩ := hzo ze rfl
+        exact List.mem_cons_of_mem _ (List.mem_map.mpr ⟨ze, List.mem_filter.mpr ⟨h1, by simp [h2]⟩, rfl⟩)
+    rcases hk de hde with h | h
+    · exact absurd hdc h
+    · rcases h te hte with (h | h) | h
+      · exact absurd h htt
+      · exact absurd htf h
+      · obtain ⟨hp, hx⟩ := h zo hmem
+        refine ⟨hp, fun hno => ⟨d2, d0, h2, h0, ?_⟩⟩
+        rcases hx with hx | hx
+        · rw [hno] at hx; cases hx
+        · exact (exprSame_eq _ _ hx).1
+  · cases hk
+
+theorem dumpExpr_ned (m : Mode) (d d' : DumpTables) (p : XTP) (e : Expr)
+    (h : e.props.contains .expandedYearDigits = false) : dumpExpr m d p e = dumpExpr m d' p e := by
+  rw [dumpExpr_eq, dumpExpr_eq]
+  have : stage3 m d e = stage3 m d' e := by
+    funext q
+    unfold stage3
+    have h' : ¬ DProp.expandedYearDigits ∈ e.props := by simpa using h
+    simp [h']
+  rw [this]
+
+/-- **C19_eval_as_written — "in the same notation it was written in", to the letter.**
+    Take any complete date form `de` of the command's parser (calendar, ordinal or week date; basic
+    or extended; with or without a signed expanded year), any non-truncated time form `te` of the
+    same format without a decimal fraction (`hh`, `hhmm`, `hhmmss` / `hh:mm`, `hh:mm:ss`), any zone
+    form `zo` of that format or none, and any values `v` that fit the widths and form a real
+    date-time of the selected calendar mode; let `s` be the text these forms spell for `v` (no `-` on
+    an all-zero year or zone).  If `s` is not one of the two notations the built-in strptime formats
+    read (`tryStrp … = none`; those are printed through strftime instead), then
+    `isodatetime s` — no offsets, no print format, no `--utc` — prints exactly `s`. -/
+theorem C19_eval_as_written (env : Cli2.Env) (a : Cli.Args) (st : Setup) (s : Str)
+    (de : Entry) (hde : de ∈ defaultTables.dateEntries) (hdc : de.typ = .complete)
+    (te : Entry) (hte : te ∈ defaultTables.timeEntries) (htt : te.typ ≠ .truncated) (htf : te.fmt = de.fmt)
+    (hnd : ∀ f, isDecFld f = true → hasGroup te.tmpl f = false)
+    (zo : Option ZEntry) (hzo : ∀ ze, zo = some ze → ze ∈ defaultTables.zoneEntries ∧ ze.fmt = de.fmt)
+    (v : Vals) (hvf : v.Fit 2) (tz : TZ)
+    (hz : mkTZ st.mode ((zoneOf st.textCfg.zone (zo.map (·.tmpl)) v).hour.getD 0)
+      ((zoneOf st.textCfg.zone (zo.map (·.tmpl)) v).minute.getD 0) = some tz)
+    (hvalid : (dateOf de.tmpl v).Valid st.mode ∧ TimeValid te.tmpl v)
+    (hy0 : v.yearNeg = true → yearOf de.tmpl v ≠ 0) (hz0 : v.tzNeg = true → zoneZero (ztmplO zo) v = false)
+    (hs : s = formText de te zo v)
+    (hv : a.version = false) (hi : a.items = [s]) (hoffs : readOffsets a.offsets1 = [])
+    (hpf : given a.printFormat = none) (ht : a.asTotal = none) (hutc : a.utc = false)
+    (hst : setup env a = .ok st) (hl : env.localTZ.Valid)
+    (hplain : plain s = true) (hR : s.head? ≠ some 'R') (hdash : s ≠ ['-'])
+    (href : s ≠ "ref".toList) (hnow : s ≠ "now".toList)
+    (h1 : tryStrp st s fmtExt = none) (h2 : tryStrp st s fmtBasic = none) :
+    cliEval env a = .ok [s] := by
+  have hss := setup_spec env a st hst
+  have hutc' : st.utc = false := by rw [hss.2.1]; exact hutc
+  have hpt : st.textCfg.pt ∈ parserTables := defaultTables_mem
+  have hned : st.textCfg.pt.ned = 2 := defaultTables_ned
+  have hx0 : st.textCfg.pt.ned = 0 → hasGroup de.tmpl .expandedYear = false := by
+    intro h; rw [hned] at h; cases h
+  have hvf' : v.Fit st.textCfg.pt.ned := by rw [hned]; exact hvf
+  obtain ⟨x, hparse, hxeq, hstr⟩ :=
+    C07_as_parsed st.textCfg hpt de hde hdc hx0 te hte htt htf hnd zo hzo v hvf' tz hz hvalid
+  have hresp : respell de.tmpl zo v = v := by
+    unfold respell
+    cases hn : v.yearNeg <;> cases hm : v.tzNeg <;> simp [hy0, hz0, hn, hm] <;> cases v <;> simp_all
+  rw [hresp, ← hs] at hstr
+  rw [← hs] at hparse
+  -- the parsed point is a whole-second point in one representation
+  have hdec : ∀ f d, isDecFld f = true → decOf te.tmpl f d = none := by
+    intro f d hf; unfold decOf; rw [hnd f hf]; rfl
+  obtain ⟨a0, ha0⟩ := Text.parse_ctor st.textCfg s true x hparse
+  obtain ⟨tp, htp⟩ := Text.ctor_toTP st.textCfg.mode a0 x ha0 (by rw [hxeq]; rfl)
+    (by rw [hxeq]; exact hdec _ _ rfl) (by rw [hxeq]; exact hdec _ _ rfl) (by rw [hxeq]; exact hdec _ _ rfl)
+  have hcanon : Canon x := by
+    have hc := dateShape_cases de.tmpl ((decodeFacts _ hpt).dates de hde (by rw [hdc]; decide)).2.2
+    simp only [datePattern, Prod.mk.injEq] at hc
+    rw [hxeq]
+    unfold Canon pointOf fieldOf
+    rcases hc with ⟨c1, c2, c3, c4, c5⟩ | ⟨c1, c2, c3, c4, c5⟩ | ⟨c1, c2, c3, c4, c5⟩ |
+      ⟨c1, c2, c3, c4, c5⟩ | ⟨c1, c2, c3, c4, c5⟩ | ⟨c1, c2, c3, c4, c5⟩ <;> simp [c1, c2, c3, c4, c5]
+  have hfmt : x.dumpFmt = some (formExpr de te zo) := by rw [hxeq]
+  have hxned : x.ned = nedOf st.textCfg.pt de.tmpl := by rw [hxeq]; rfl
+  -- what `date_parse` returns
+  have hparsed : dateParse st s = .ok ⟨tp, x.ned, formExpr de te zo⟩ := by
+    unfold dateParse
+    simp only [href, ↓reduceIte, hnow, hplain, Bool.not_true, Bool.false_eq_true, parseAny, h1, h2, parseIso,
+      hparse, htp, hfmt, Option.getD_some, utcIf, hutc']
+  -- the command prints the point in its as-parsed format
+  obtain ⟨q, hq, _, _, hcli⟩ := C19_eval_shift env a s st _ [] hv hi hdash hR ht hst hl hparsed
+    (by rw [hoffs]; rfl)
+  simp only [addAll, Except.ok.injEq] at hq
+  subst hq
+  rw [hcli, hpf]
+  simp only [Option.getD_none]
+  -- … which is what `str` of the parsed point prints
+  obtain ⟨hsh, hex⟩ := asParsed_time st.textCfg.pt hpt de hde hdc te hte htt htf zo hzo
+  obtain ⟨dt, e, hdt, he, hpct, hne, _, hprops, _⟩ := exprCheck_spec st.textCfg.pt de (some te) zo hex
+  have hff : fmtOf de (some te) zo = formExpr de te zo := rfl
+  rw [hff] at he hpct hne
+  obtain ⟨hpl, hsame⟩ := cliExpr_spec de hde hdc te hte htt htf zo hzo
+  rw [hff] at hpl hsame
+  have hstr' : Text.str st.mode x = Text.dumpExpr st.mode dt x e :=
+    str_dumpFmt st.mode x dt _ e (by rw [hxned]; exact hdt) hfmt hne hpct he
+  have hd : Text.dumpExpr st.mode dt x e = .ok s := by rw [← hstr']; exact hstr
+  have hgoal : formatPoint st.mode x.ned tp (formExpr de te zo) = .ok s := by
+    unfold formatPoint
+    simp only [hpl, Bool.not_true, Bool.false_eq_true, ↓reduceIte, hpct]
+    rw [ofTP_of_toTP x tp htp hcanon]
+    have hcore : ∀ d2, Text.dump st.mode d2 (core x) (formExpr de te zo) = Text.dump st.mode d2 x (formExpr de te zo) :=
+      fun d2 => dump_meta st.mode d2 x _ none none
+    cases hg : hasGroup de.tmpl .expandedYear with
+    | true =>
+      have hd2 : dumpTablesFor 2 = some dt := by
+        rw [← hdt]; unfold nedOf; rw [hg, hned]; rfl
+      rw [hd2]
+      simp only [hcore]
+      unfold Text.dump
+      rw [hpct, he]
+      simp only [Bool.false_eq_true, ↓reduceIte, hd]
+    | false =>
+      obtain ⟨d2, d0, hd2, hd0, hexp⟩ := hsame hg
+      have hdt0 : dt = d0 := by
+        have : dumpTablesFor 0 = some dt := by rw [← hdt]; unfold nedOf; rw [hg]; rfl
+        rw [hd0] at this; exact (Option.some.inj this).symm
+      subst hdt0
+      rw [hd2]
+      simp only [hcore]
+      unfold Text.dump
+      rw [hpct, hexp, he]
+      have hpx : e.props.contains .expandedYearDigits = false := by
+        have := hprops .expandedYear (by decide)
+        rw [hg] at this; exact this
+      simp only [Bool.false_eq_true, ↓reduceIte, dumpExpr_ned st.mode d2 dt x e hpx, hd]
+  rw [hgoal]
+  rfl
+
+end asWritten
+
 /-! ## Non-vacuity, and witnesses of what the Python that exists does -/
 
 deriving instance DecidableEq for Except
@@ -471,22 +674,61 @@ theorem C19_traceback_witness_calendar :
     cliEval { exEnv with envCalendar := some "bogus".toList } (exArgs ["2000"]) =
       .error (.traceback .keyError) := by decide +kernel
 
-/-- **"Printed in the notation it was written in" is false of the code for the basic ordinal
-    date-time without a zone**: `isodatetime -u 2004031T204619` — day 031 of 2004, the 31st of
-    January — is read by the `time.strptime` fallback of the built-in format `%Y%m%dT%H%M%S` as
-    2004-03-1 and printed, with no offset at all, as the 1st of March; the ISO 8601 parser, which
-    would have read it correctly, is never asked. -/
-theorem C19_ordinal_basic_misread_witness :
-    cliEval exEnv { exArgs ["2004031T204619"] with utc := true } = .ok ["20040301T204619".toList] ∧
-    parseIso (exSetup .greg true) "2004031T204619".toList true =
-      .ok ⟨⟨.ord 2004 31, 20, 46, 19, ⟨0, 0⟩⟩, 0, "CCYYDDDThhmmss".toList⟩ := by decide +kernel
+/-- **Regression (formerly a misread)**: the basic ordinal date-time without a zone,
+    `isodatetime -u 2004031T204619` — day 031 of 2004 — used to be read by the `time.strptime`
+    fallback of the built-in format `%Y%m%dT%H%M%S` as 2004-03-1 and printed as `20040301T204619`.
+    Since the repair (`DateTimeOperator.strptime` falls back only on `StrftimeSyntaxError`) the
+    built-in formats refuse it, the ISO 8601 parser reads it, and it is printed as written. -/
+theorem C19_ordinal_basic_regression :
+    cliEval exEnv { exArgs ["2004031T204619"] with utc := true } = .ok ["2004031T204619".toList] ∧
+    dateParse (exSetup .greg true) "2004031T204619".toList =
+      .ok ⟨⟨.ord 2004 31, 20, 46, 19, ⟨0, 0⟩⟩, 0, "CCYYDDDThhmmss".toList⟩ ∧
+    cliEval exEnv { exArgs ["2004031T204619"] with utc := true, offsets1 := ["P1D".toList] } =
+      .ok ["2004032T204619".toList] := by decide +kernel
 
-/-- **The same for the reduced basic time `CCYYMMDDThhmm` without a zone**:
-    `isodatetime 20000228T1234` — 12:34 local time — is read by that fallback as 12:03:04 UTC and
-    printed as `20000228T120304`. -/
-theorem C19_reduced_basic_misread_witness :
-    cliEval exEnv (exArgs ["20000228T1234"]) = .ok ["20000228T120304".toList] ∧
-    parseIso (exSetup .greg false) "20000228T1234".toList true =
-      .ok ⟨⟨.cal 2000 2 28, 12, 34, 0, ⟨5, 30⟩⟩, 0, "CCYYMMDDThhmm".toList⟩ := by decide +kernel
+/-- **Regression**: the reduced basic time `CCYYMMDDThhmm` without a zone, `isodatetime
+    20000228T1234` (formerly read as 12:03:04 UTC and printed `20000228T120304`), and the ordinal
+    `CCYYDDDThhmm`, `isodatetime 2004101T0101` (formerly `20041001T010001`), print as written, in
+    the local zone. -/
+theorem C19_reduced_basic_regression :
+    cliEval exEnv (exArgs ["20000228T1234"]) = .ok ["20000228T1234".toList] ∧
+    dateParse (exSetup .greg false) "20000228T1234".toList =
+      .ok ⟨⟨.cal 2000 2 28, 12, 34, 0, ⟨5, 30⟩⟩, 0, "CCYYMMDDThhmm".toList⟩ ∧
+    cliEval exEnv (exArgs ["2004101T0101"]) = .ok ["2004101T0101".toList] ∧
+    dateParse (exSetup .greg false) "2004101T0101".toList =
+      .ok ⟨⟨.ord 2004 101, 1, 1, 0, ⟨5, 30⟩⟩, 0, "CCYYDDDThhmm".toList⟩ := by decide +kernel
+
+/-- The built-in strptime formats still read what they are for (and only that): the full
+    extended and basic date-times, kept in their `%` notation; un-padded fields and a lower-case
+    `t` (formerly accepted through the fallback) are now refused by every reader. -/
+example : dateParse (exSetup .greg false) "2000-02-28T12:34:56".toList =
+    .ok ⟨⟨.cal 2000 2 28, 12, 34, 56, ⟨5, 30⟩⟩, 0, "%Y-%m-%dT%H:%M:%S".toList⟩ := by decide +kernel
+example : cliEval exEnv (exArgs ["2000-1-1T0:0:0"]) = .error (.exit .point) ∧
+    cliEval exEnv (exArgs ["2000-01-01t00:00:00"]) = .error (.exit .point) := by decide +kernel
+
+
+/-! ### `C19_eval_as_written` at the former misread text -/
+
+section
+open IsoDT.Text IsoDT.Props.C07 IsoDT.Gen.Templates
+
+def wDate : Entry := ⟨.basic, .complete, "CCYYDDD".toList, t2⟩
+def wTime : Entry := ⟨.basic, .complete, "hhmmss".toList, t46⟩
+def wVals : Vals := { cc := 20, yy := 4, doy := 31, hour := 20, minute := 46, second := 19 }
+
+example : wDate ∈ defaultTables.dateEntries ∧ wTime ∈ defaultTables.timeEntries ∧
+    formText wDate wTime none wVals = "2004031T204619".toList := by decide +kernel
+
+/-- The hypotheses of `C19_eval_as_written` hold for `isodatetime 2004031T204619` (local zone
+    +05:30, Gregorian mode): basic ordinal date form, `hhmmss`, no zone. -/
+example : cliEval exEnv (exArgs ["2004031T204619"]) = .ok ["2004031T204619".toList] :=
+  C19_eval_as_written exEnv (exArgs ["2004031T204619"]) (exSetup .greg false) "2004031T204619".toList
+    wDate (by decide +kernel) rfl wTime (by decide +kernel) (by decide) rfl
+    (fun f hf => by cases f <;> first | exact absurd hf (by decide) | decide +kernel)
+    none (fun ze h => by cases h) wVals (by decide) ⟨5, 30⟩ (by decide +kernel) (by decide +kernel)
+    (fun h => absurd h (by decide)) (fun h => absurd h (by decide)) (by decide +kernel)
+    rfl rfl (by decide) (by decide) rfl rfl (by rfl) (by decide) (by decide) (by decide) (by decide)
+    (by decide) (by decide) (by decide +kernel) (by decide +kernel)
+end
 
 end IsoDT.Props.C19b
